@@ -1,4 +1,5 @@
 import dis
+import re
 import yaml
 from typing import (
     Any,
@@ -55,6 +56,36 @@ class NameGenerator:
     """
 
     kinds: dict[str, int] = field(default_factory=dict)
+
+    _generated = (
+        re.compile(r"^(.+)_block_(\d+)$"),
+        re.compile(r"^(.+)_region_(\d+)$"),
+        re.compile(r"^__scfg_(.+)_var_(\d+)__$"),
+    )
+
+    def observe(self, block: BasicBlock) -> None:
+        """Take note of the names used by an existing block.
+
+        If the name of the block, or of a control variable it assigns or
+        branches on, has the shape of a generated name, the index of that
+        kind is moved past it, such that the name is never generated again.
+
+        Parameters
+        ----------
+        block: BasicBlock
+            A block of the graph that this generator provides names for.
+        """
+        names = [block.name]
+        if isinstance(block, SyntheticBranch):
+            names.append(block.variable)
+        elif isinstance(block, SyntheticAssignment):
+            names.extend(block.variable_assignment.keys())
+        for name in names:
+            for pattern in self._generated:
+                match = pattern.match(str(name))
+                if match:
+                    kind, idx = match.group(1), int(match.group(2))
+                    self.kinds[kind] = max(self.kinds.get(kind, 0), idx + 1)
 
     def new_block_name(self, kind: str) -> str:
         """Generate a new unique name for a block of the specified kind.
@@ -201,6 +232,9 @@ class SCFG(Sized):
     region: RegionBlock = field(init=False, compare=False)
 
     def __post_init__(self) -> None:
+        # Names that are already taken must not be generated again.
+        for block in self.graph.values():
+            self.name_gen.observe(block)
         name = self.name_gen.new_region_name("meta")
         new_region = RegionBlock(
             name=name,
@@ -1049,6 +1083,14 @@ class SCFGIO:
         for block in scfg.graph.values():
             if isinstance(block, RegionBlock):
                 object.__setattr__(block, "parent_region", scfg.region)
+        # The new name generator must not hand out the names read back.
+        for region in scfg.iter_subregions():
+            name_gen.observe(region)
+            assert region.subregion is not None
+            for block in region.subregion.graph.values():
+                name_gen.observe(block)
+        for block in scfg.graph.values():
+            name_gen.observe(block)
 
         return scfg, block_ref_dict
 
